@@ -24,6 +24,7 @@ type c11Case struct {
 	Fn2   string `json:"fn2,omitempty"` // pure: second call on the same receiver / on the first result
 	Args2 []Val  `json:"args2,omitempty"`
 	Chain bool   `json:"chain,omitempty"` // pure: the second call is made on the first call's result
+	Wrap  bool   `json:"wrap,omitempty"`  // call: every argument a is written true.then(a, 0), a nested call with arguments of its own
 }
 
 var c11MaxArgs = map[string]int{"len": 0, "split": 1, "raw": 0, "trim": 1, "trimLeft": 1, "trimRight": 1, "upper": 0, "lower": 0, "capitalize": 0, "reverse": 0,
@@ -58,6 +59,15 @@ func litArgs(args []Val) string {
 	return strings.Join(parts, ", ")
 }
 
+// wrappedArgs writes every argument as the result of a nested call that takes arguments itself.
+func wrappedArgs(args []Val) string {
+	parts := make([]string, len(args))
+	for i, a := range args {
+		parts[i] = "true.then(" + a.Lit() + ", 0)"
+	}
+	return strings.Join(parts, ", ")
+}
+
 func c11Check(cs c11Case) (ok bool, sig, expected, observed string) {
 	recvSrc := cs.Recv.Lit()
 	data := map[string]Val{}
@@ -75,7 +85,14 @@ func c11Check(cs c11Case) (ok bool, sig, expected, observed string) {
 	case "call":
 		ref := c11Ref(cs.Fn, cs.Recv, cs.Args)
 		wantArr := len(ref.alts) > 0 && ref.alts[0].K == VArr && !ref.member
-		src := "{{ r = " + recvSrc + "." + cs.Fn + "(" + litArgs(cs.Args) + ") }}[{{ r }}]"
+		argSrc := litArgs(cs.Args)
+		if cs.Wrap {
+			argSrc = wrappedArgs(cs.Args)
+		}
+		src := "{{ r = " + recvSrc + "." + cs.Fn + "(" + argSrc + ") }}[{{ r }}]"
+		if cs.Wrap {
+			src = "{{ q = true.then(1, 2) }}" + src // an earlier call with arguments in the same evaluation
+		}
 		if wantArr {
 			src += "|{{ r.len() }}"
 		}
@@ -334,7 +351,7 @@ func c11Describe(r refOut) string {
 // domains
 
 func c11Strings(maxLen int) []Val {
-	syms := []string{"a", "B", " ", "é", "ß", "日", ","}
+	syms := []string{"a", "B", " ", "é", "ß", "日", ",", "ı", "ⱥ"} // the last two change their UTF-8 length when upper-cased
 	out := []Val{vStr("")}
 	var rec func(cur string, n int)
 	rec = func(cur string, n int) {
@@ -529,6 +546,11 @@ func c11Run(c *Ctx) {
 						}
 						if !do(c11Case{Mode: "call", Recv: r, Fn: fn, Args: args, AsVar: asVar}, ri) {
 							return
+						}
+						if len(args) > 0 && asVar {
+							if !do(c11Case{Mode: "call", Recv: r, Fn: fn, Args: args, AsVar: asVar, Wrap: true}, ri) {
+								return
+							}
 						}
 					}
 				}
